@@ -72,6 +72,11 @@ class FCFG(CFG):
                                   production.features, ParseTree(production.head))
                 if processed.add(end_idx, new_state):
                     chart[end_idx].append(new_state)
+        # The variable may already have been completed on the empty word at this position
+        for other in list(processed.generator(end_idx)):
+            if other.positions[0] == end_idx and not other.is_incomplete() \
+                    and other.production.head == next_var:
+                chart[end_idx].append(other)
 
     def contains(self, word: Iterable[Union[Terminal, str]]) -> bool:
         """ Gives the membership of a word to the grammar
@@ -122,20 +127,16 @@ class FCFG(CFG):
         first_state = State(dummy_rule, (0, 0, 0), dummy_rule.features, ParseTree("BEGIN"))
         chart[0].append(first_state)
         processed.add(0, first_state)
-        for i in range(len(chart) - 1):
+        for i in range(len(chart)):
             while chart[i]:
                 state = chart[i].pop()
                 if state.is_incomplete() and state.next_is_variable():
                     self.__predictor(state, chart, processed)
                 elif state.is_incomplete():
-                    if state.next_is_word(word[i]):
+                    if i < len(word) and state.next_is_word(word[i]):
                         _scanner(state, chart, processed)
                 else:
                     _completer(state, chart, processed)
-        while chart[len(chart) - 1]:
-            state = chart[len(chart) - 1].pop()
-            if not state.is_incomplete():
-                _completer(state, chart, processed)
         for state in processed.generator(len(word)):
             if state.positions[0] == 0 and not state.is_incomplete() and state.production.head == self.start_symbol:
                 return state
@@ -211,7 +212,7 @@ def _completer(state, chart, processed):
     # We have a complete state. We must check if it helps to move another state forward.
     begin_idx = state.positions[0]
     head = state.production.head
-    for next_state in processed.generator(begin_idx):
+    for next_state in list(processed.generator(begin_idx)):
         # next_state[1][1] == begin_idx always true
         if next_state.is_incomplete() and next_state.production.body[next_state.positions[2]] == head:
             try:
